@@ -4,7 +4,7 @@
 From Coq Require Import ZArith List Bool Lia.
 From Tickit Require Import RectDefs RBDefs RBSpec RBLemmas RBSpanProofs RBAbsLemmas RBInv RBOpProofs RBProofs RBProps
                            RBTheorems Gen_Linechars RBGlyphs RBFlushDefs RBFlushSpec RBFlushProofs RBWidth RBFlushCols
-                           RBFlushReach RBTermSim RBFlushShown.
+                           RBFlushReach RBTermSim RBFlushShown RBPenLemmas.
 Import ListNotations.
 Local Open Scope Z_scope.
 
@@ -50,7 +50,7 @@ Lemma tcell_eqb_refl : forall c, tcell_eqb c c = true.
 Proof.
   intros [t p]. unfold tcell_eqb. cbn [t_text t_pen]. apply andb_true_iff. split.
   - induction t as [|x t IH]; cbn [list_eqb]; [reflexivity|]. now rewrite Z.eqb_refl, IH.
-  - unfold pen_equiv, attr_equiv. now rewrite !Z.eqb_refl.
+  - apply pen_equiv_refl.
 Qed.
 
 Lemma nthz_zn : forall {A} (l : list A) i d, 0 <= i -> nthz l i d = zn l i d.
